@@ -1296,6 +1296,122 @@ theorem kinv_of_check (c : Cfg) (z : Zone) (h : kinvCheck c z = true) : KInv c z
       simp [ht1, ht2, ht3] at this
       omega
 
+/-! ## 6b. Prerequisites: where the query-path lookup is the RFC's RRset test
+
+`verify_prerequisites` asks `lookup()`.  For the four value-independent rows of table 3.2.4 the
+code's per-RR verdict *is* RFC 2136 §3.2.5's under `ExactLookup` (no referral above the name, no
+CNAME / ANAME at it, no wildcard standing in for a missing RRset) — outside it: finding
+`prereq-uses-query-lookup`.  The value-dependent row is not set equality in the code at all
+(finding `prereq-value-dependent-subset`). -/
+
+structure ExactLookup (z : Zone) (name : Name) (t : Nat) : Prop where
+  noDeleg : delegationWalk z t name name.labels = none
+  noAlias : ∀ e ∈ z, e.1.1 = name → e.1.2 ≠ T_CNAME ∧ e.1.2 ≠ T_ANAME ∧ e.1.2 < 65535
+  noWild : z.get (name, t) = none →
+    (name.isWildcard || name.labels.isEmpty) = true ∨ wildcardWalk z t name.labels = none
+
+theorem exactFind_eq_get (z : Zone) (name : Name) (t : Nat)
+    (h : ∀ e ∈ z, e.1.1 = name → e.1.2 ≠ T_CNAME ∧ e.1.2 ≠ T_ANAME ∧ e.1.2 < 65535) :
+    exactFind z name t = z.get (name, t) := by
+  induction z with
+  | nil => rfl
+  | cons e z ih =>
+    obtain ⟨k, v⟩ := e
+    have ih' := ih (fun e he => h e (List.mem_cons_of_mem _ he))
+    unfold exactFind at ih' ⊢
+    rw [List.find?_cons, get_cons]
+    by_cases hk : k = (name, t)
+    · subst hk
+      have := (h ((name, t), v) List.mem_cons_self rfl).2.2
+      simp [this]
+    · rw [if_neg hk]
+      have hfalse : decide (k.1 = name ∧ k.2 < 65535 ∧
+          (k.2 = t ∨ k.2 = T_CNAME ∨ ((t = T_A ∨ t = 28) ∧ k.2 = T_ANAME))) = false := by
+        rw [decide_eq_false_iff_not]
+        rintro ⟨hn, _, hor⟩
+        obtain ⟨h1, h2, _⟩ := h (k, v) List.mem_cons_self hn
+        rcases hor with ht | hc | ⟨_, ha⟩
+        · exact hk (Prod.ext hn ht)
+        · exact h1 hc
+        · exact h2 ha
+      simp only [hfalse]
+      exact ih'
+
+/-- under `ExactLookup` the records the prerequisite test sees are the RRset `<name, t>` itself -/
+theorem lookupRecs_exact (z : Zone) (name : Name) (t : Nat) (h : ExactLookup z name t)
+    (h1 : t ≠ T_ANY) (h2 : t ≠ T_AXFR) : lookupRecs z name t = rrsetOf z (name, t) := by
+  unfold lookupRecs innerLookup lookupNoWild
+  rw [if_neg h2, if_neg h1]
+  simp only [h.noDeleg, exactFind_eq_get z name t h.noAlias]
+  cases hg : z.get (name, t) with
+  | some rs => simp [rrsetOf, hg]
+  | none =>
+    simp only [rrsetOf, hg, Option.getD_none]
+    rcases h.noWild hg with hw | hw
+    · simp [hw]
+    · split
+      · rfl
+      · simp [hw]
+
+/-- **prereq_rrset_eq_rfc_partial** — "RRset exists / does not exist (value independent)":
+class ANY or NONE, type not ANY.  Same verdict, same rcode as RFC 2136 §3.2.5. -/
+theorem prereq_rrset_eq_rfc_partial (c : Cfg) (z : Zone) (r : Rec)
+    (hcls : r.cls = C_ANY ∨ r.cls = C_NONE) (ht : r.rtype ≠ T_ANY) (hax : r.rtype ≠ T_AXFR)
+    (hnull : r.rtype ≠ T_NULL) (hx : ExactLookup z r.name.toLowercase r.rtype) :
+    Upd.prereqOne c z r = Rfc2136.prereqOne c z r := by
+  have hempty : r.isEmptyData = Rfc2136.rdlengthZero r := by
+    unfold Rec.isEmptyData Rfc2136.rdlengthZero
+    have : (r.rtype == T_NULL) = false := by simpa using hnull
+    simp [this]
+  have hl := lookupRecs_exact z r.name.toLowercase r.rtype hx ht hax
+  unfold Upd.prereqOne Rfc2136.prereqOne
+  simp only [hl, hempty, ht, if_false]
+  have hie : ∀ l : List Rec, l.isEmpty = true ↔ l = [] := fun l => by cases l <;> simp
+  by_cases h1 : r.ttl ≠ 0
+  · simp [h1]
+  · simp only [h1, if_false]
+    by_cases h2 : (!Name.zoneOf c.origin r.name) = true
+    · simp [h2]
+    · simp only [h2, if_false]
+      by_cases ha : r.cls = C_ANY
+      · simp only [ha, if_true]
+        cases hrd : Rfc2136.rdlengthZero r with
+        | false => simp
+        | true =>
+          simp only [Bool.not_true, Bool.false_eq_true, if_true, if_false]
+          by_cases hn : rrsetOf z (r.name.toLowercase, r.rtype) = []
+          · simp [hn]
+          · have : (rrsetOf z (r.name.toLowercase, r.rtype)).isEmpty = false := by
+              cases h : (rrsetOf z (r.name.toLowercase, r.rtype)).isEmpty with
+              | false => rfl
+              | true => exact absurd ((hie _).mp h) hn
+            simp [hn, this]
+      · have hn : r.cls = C_NONE := by rcases hcls with h | h; exact absurd h ha; exact h
+        have hne : ¬ C_NONE = C_ANY := by decide
+        simp only [hn, hne, if_false, if_true]
+        cases hrd : Rfc2136.rdlengthZero r with
+        | false => simp
+        | true =>
+          simp only [Bool.not_true, Bool.false_eq_true, if_true, if_false]
+          by_cases hnil : rrsetOf z (r.name.toLowercase, r.rtype) = []
+          · simp [hnil]
+          · have : (rrsetOf z (r.name.toLowercase, r.rtype)).isEmpty = false := by
+              cases h : (rrsetOf z (r.name.toLowercase, r.rtype)).isEmpty with
+              | false => rfl
+              | true => exact absurd ((hie _).mp h) hnil
+            simp [hnil, this]
+
+/-- "each message's prerequisites are judged against the zone as left by the earlier messages":
+in a history the message after `h₁` is processed by `update` on exactly `runAll h₁`. -/
+theorem runAll_append (c : Cfg) (h1 h2 : List Msg) : ∀ z, runAll c z (h1 ++ h2) = runAll c (runAll c z h1) h2 := by
+  induction h1 with
+  | nil => intro z; rfl
+  | cons m ms ih => intro z; simp only [List.cons_append, runAll]; exact ih _
+
+theorem history_step (c : Cfg) (z : Zone) (h1 : List Msg) (m : Msg) :
+    runAll c z (h1 ++ [m]) = (update c true (runAll c z h1) m).1 := by
+  rw [runAll_append]; rfl
+
 /-! ## 7. Concrete zone: non-vacuity of the hypotheses, and the counter-examples (findings)
 
 Zone `e.` with SOA (serial 100), NS ×2, `a.e.` A ×1 (TTL 300), `c.e.` CNAME. -/
@@ -1423,5 +1539,15 @@ theorem type_65535_beside_cname_cex :
     let r1 : Rec := { name := nm 98, rtype := 65535, cls := C_IN, ttl := 300, rdata := .bytes [0] }
     let z := (update exCfg true (exZone 100) (upd [r1, cnameRec 98 97 300])).1
     rrsetOf z (nm 98, T_CNAME) ≠ [] ∧ rrsetOf z (nm 98, 65535) ≠ [] := by decide
+
+/-- `ExactLookup` is satisfiable on the example zone (a host name), and the theorem then gives
+RFC's NXRRSET for "RRset exists: a.e. TXT" -/
+example : ExactLookup (exZone 100) (nm 97) 16 where
+  noDeleg := by decide
+  noAlias := by decide
+  noWild := fun _ => Or.inr (by decide)
+
+example : verifyPrereqs exCfg (exZone 100)
+    [{ name := nm 97, rtype := 16, cls := C_ANY, ttl := 0, rdata := .empty }] = some .nxRRSet := by decide
 
 end HickoryVerif.C12
